@@ -99,6 +99,11 @@ CHECKS = {
     technique="TLA+ resource model and bounds (Resources.tla; design bounded, recorded deviations unbounded, checked by TLC); traces measured by a counting allocator on long adversarial connections through the HTTP, TLS, TCP and unified analyzers, every recorded event validated by TLC against the bounds (TV_C11)",
     text="Resources.tla states the bounds (retained <= base + connections x 256 KiB; allocated per packet <= 1 MiB + 64 x frame length) and a small model showing that buffering at most a fixed amount and examining the buffer once per packet satisfies them for every history length while unbounded storing / re-parsing does not; the harness's counting global allocator measures both quantities for every packet of connections of up to 2 000 (thorough 20 000) segments of 1 400 bytes that never yield a fingerprint (endless HTTP-looking head, TLS application data, non-ClientHello record then data, huge declared record, random bytes, endless body), in both directions, at capacity 1 and with capacity-many connections, and TLC checks every recorded event.",
     note="Measured, not proved: level `exploration`. Constants are this check's reading of the statement. Real-time TTL expiry not relied on."),
+ "C01": dict(
+    level="exploration", design="§5 C01",
+    technique="TLA+-defined input space (Totality.tla / MC_C01: every TCP option (kind, length, position) encoding) plus exhaustive truncations, bit flips and byte overwrites of seeds rendered by the other specifications' Wire operators and of the repository's captures, and database text mutations; every public entry point driven under catch_unwind + watchdog with a fresh-equals-used probe every 50 inputs",
+    text="The structured part of the input space is enumerated by TLC (every option kind x length byte 0..42 x position in option areas of every size, IPv4/IPv6, SYN/SYN+ACK, all framings in thorough); the byte-level part is every truncation, every single-bit flip and five overwrite values at every offset of frames, ClientHellos, HTTP/1 heads and HTTP/2 connection starts produced by the specifications plus capture frames, and token-level mutations of every database line; each input goes to the unified, TCP, HTTP and TLS packet paths, the raw filter, the dispatch hashes, the incremental reader and extractor, the one-shot parsers, the loader and worker pools; a panic, an overflow (checks on), a call that does not return within 5 s, or a well-formed probe connection that behaves differently on the used instance than on a fresh one is a violation.",
+    note="Exploration of enumerated input classes, not a proof. Panics caught by catch_unwind; aborts would kill the harness (reported as tool error with the input batch)."),
 }
 
 NOT_YET = {}
